@@ -489,6 +489,7 @@ Definition h_derive_key (v : version) (s : store) (cr : cres) (otype : Z) (uids 
       rd DERIVE (so_class k0) "unique_identifier"
       (match td_get d "Cryptographic Length" with
        | Some (l :: _) =>
+         if a_val l <? 0 then Done else       (* "must not be negative" (repo commit 02e2981) *)
          if negb (a_val l mod 8 =? 0) then Done else
          let alg := td_get d "Cryptographic Algorithm" in
          if (otype =? OT_SYMMETRIC_KEY) && (match alg with Some (_ :: _) => false | _ => true end) then Done else
@@ -761,6 +762,8 @@ Definition h_modify1 (v : version) (s : store) (u : option Z) (a : attr) : outco
 
 Definition h_modify2 (s : store) (u : option Z) (a : attr) (current : option attr) : outcome :=
   with_obj s u (fun o =>
+    (* the current and the new attribute must be the same kind of attribute (repo commit 02e2981) *)
+    if match current with Some c => negb (String.eqb (a_name c) (a_name a)) | None => false end then Done else
     q_modifiable (a_name a) (fun m =>
       if negb m then Done else
       q_multivalued (a_name a) (fun multi =>
